@@ -72,9 +72,24 @@ def wellformed(t):
     return None
 
 
+class _Sink:
+    """the least a caller's replacement for sys.stdout has to offer for print() to work: write().  (A GUI log pane, a service's log adapter: no
+    flush(), no encoding, no fileno().)  Everything the library prints during call() goes here."""
+
+    def __init__(self):
+        self.parts = []
+
+    def write(self, s):
+        self.parts.append(s)
+        return len(s)
+
+    def getvalue(self):
+        return "".join(self.parts)
+
+
 def call(f, *a, **kw):
-    """Run f capturing stdout.  Returns ('ok', value, printed) or ('exc', exception, printed)."""
-    buf = io.StringIO()
+    """Run f capturing stdout (in a write()-only stream).  Returns ('ok', value, printed) or ('exc', exception, printed)."""
+    buf = _Sink()
     try:
         with contextlib.redirect_stdout(buf):
             v = f(*a, **kw)
